@@ -6,9 +6,9 @@ for p in glob.glob('/verif/lean/RuxModel/Drv/*.lean'):
     if name in ('Common',): continue
     s = open(p).read()
     if f'namespace Rux.Drv.{name}E' in s: continue
-    m = re.search(r'def (\w+Engine) : Engine', s)
-    if not m: continue
-    eng = m.group(1)
+    engs = re.findall(r'def (\w+Engine) : Engine', s)
+    if not engs: continue
+    eng = ' '.join(engs)
     if 'namespace Rux.Drv\n' not in s or 'end Rux.Drv' not in s: 
         print('skip', p); continue
     s = s.replace('namespace Rux.Drv\n', f'namespace Rux.Drv.{name}E\nopen Rux.Drv\n', 1)
